@@ -402,6 +402,42 @@ TYPED = {"bool": [True, False, True], "int": [5, -3, 2], "float": [0.5, -2.25, 4
          "complex": [1 + 2j, -0.5j, 3 + 0j], "fraction": None}
 
 
+def _strict_same(g, w):
+  """equal AND indistinguishable: same type, same sign of zero (also inside a complex)"""
+  if type(g) is not type(w): return False
+  if isinstance(w, complex):
+    return _strict_same(g.real, w.real) and _strict_same(g.imag, w.imag)
+  if isinstance(w, float):
+    if w != w: return g != g
+    return g == w and math.copysign(1.0, g) == math.copysign(1.0, w)
+  return g == w
+
+
+MIXED = [3, -3.0, 3.0, True, 1, 1.0, -3, 0.0, -0.0, complex(-1, 0.0), complex(-1, -0.0)]
+
+
+def h_mixed_items(ctx, cfg):
+  """One container holding items that compare equal (and hash equally) but are different objects - 3 / 3.0 / True,
+  0.0 / -0.0, -1+0j / -1-0j: element i of the result is the function applied to element i ITSELF."""
+  import cmath
+  import audiolazy.lazy_math as lm
+  from audiolazy import Stream
+  name, kind = cfg["name"], cfg["kind"]
+  f = getattr(lm, name)
+  start = ctx.split("start", 0, 3); n = ctx.split("len", 0, len(MIXED) - 3)
+  vals = (MIXED + MIXED)[start:start + n]
+  arg = _container(kind, vals) if kind != "stream" else Stream(list(vals))
+  def one(v):
+    try: return ("ok", f(v))
+    except Exception as e: return ("exc", type(e).__name__)
+  want = [one(v) for v in vals]
+  if any(w[0] == "exc" for w in want): ctx.exclude("the function itself refuses one of the items")
+  got = list(f(arg))
+  ok = len(got) == len(want) and all(_strict_same(g, w[1]) for g, w in zip(got, want))
+  ctx.prove(ok, "element-i-is-f(arg_i)", "%s over a %s of equal-but-distinguishable items %r: got %r want %r"
+            % (name, kind, vals, got, [w[1] for w in want]))
+
+
 def h_typed(ctx, cfg):
   """Concrete element types (bool, int, float, complex, exact rationals): the result is exactly what the element type's
   own operator gives (catches type-specific special-casing that uninterpreted elements cannot see)."""
@@ -510,4 +546,7 @@ def tasks(tier, seed):
     for kind in ("scalar", "list", "tuple", "deque", "stream", "gen", "map", "set"):
       if kind == "set" and name in ("frexp",): continue
       T.append(("h_mathnames", {"name": name, "kind": kind}))
+  for name in ("absolute", "sign", "phase", "exp", "dB20"):
+    for kind in ("list", "tuple", "gen", "stream"):
+      T.append(("h_mixed_items", {"name": name, "kind": kind}))
   return T
